@@ -29,7 +29,7 @@ from genlib import *
 LEAN_MODULES = ["MpirProofs.Props.C02_dcappr"]
 THEOREMS = ["Mpir.DcDivappr." + t for t in """
 dcDivappr_floor2_small dcDivappr_floor2 dcDivappr_far_off dcDivappr_repaired_examples
-dc_divappr_q_contract dc_divappr_q_remainder sb_divappr_q_remainder dc_divappr_q_ok dc_div_q_exact
+dc_divappr_q_contract dc_divappr_q_remainder sb_divappr_q_remainder dc_divappr_q_ok dc_divappr_q_oracle dc_div_q_exact
 """.split()]
 PINS = [("mpn/generic/dc_divappr_q.c", None), ("mpn/generic/sb_divappr_q.c", "__divappr_helper"), ("mpn/generic/sb_divappr_q.c", None),
         ("mpn/generic/dc_div_q.c", None)]
@@ -38,7 +38,9 @@ TRUSTED = ["hand-written value-level model lean/Mpir/Model/DcDivappr.lean of mpn
            "is part of the model; tied by correspondence on every run: quotient, those three limbs and qh compared verbatim)",
            "callee contracts inside that model: mpn_sb_div_qr = exact quotient/remainder (proved for its limb-level model, part c02_sb), "
            "mpn_dc_div_qr = the model of part c02_dc (proved exact), mpn_mulmid = the middle product of mulmid.c:32-38"]
-ASSUMPTIONS = ["DC_DIV_QR_THRESHOLD is the value in gmp-mparam.h of the tree under test (checked inside the C op); SB_DIVAPPR_Q_CUTOFF is read "
+ASSUMPTIONS = ["sizes are mp_size_t: 2*dn + 2 <= 2^64 (hypothesis `hsize` of dc_divappr_q_contract, the same as in sb_divappr_q_contract: the neglected "
+               "products of a call total less than n*B^n, which must stay below the divisor)",
+               "DC_DIV_QR_THRESHOLD is the value in gmp-mparam.h of the tree under test (checked inside the C op); SB_DIVAPPR_Q_CUTOFF is read "
                "from mpn/generic/dc_divappr_q.c of the tree under test (the theorems hold for every T >= 6, C >= 3)"]
 RULE = ("dc_divappr_q_model: dn in {6..9, 13, C-1..C+2, T+1, T+2, 2C-1..2C+2, 4C+1}, qn from 3 to 3*dn+1 on both sides of qn + 1 = dn; "
         "divisors B^n/2, B^n-1, B^n/2 + all-ones tail, 0x80..0 then ones, random; quotients with all-ones / zero halves and trailing "
